@@ -51,7 +51,7 @@ NB_SLICES = ('nb_slices', 'nb_slices', 'all stacks of depth<=4 over {a,bb} x all
 NB_PEG_D1 = ('nb_peg', 'nb_peg_d1', 'PUSH(a) ~ ((POP? ~ b) | PEEK); all strings<=6 chars over {a,b}', 'q')
 NB_GEN = ('derive:nb_gen', 'nb_gen_vs_pest', 'generated parser vs pest: 38 rules (all kinds/operators, built-ins, stack slices) x all strings<=5 chars over 3 alphabets', 'Q')
 NB_GEN_T = ('derive:nb_gen', 'nb_gen_vs_pest', 'generated parser vs pest: 38 rules x all strings<=7 chars over 3 alphabets', 't', {'VERIF_NB_L': '7'})
-NB_GEN_SUB_REL = ('derive:nb_gen', 'nb_gen_subinput@release', 'RELEASE profile (debug assertions off, unchecked slicing): 21 entry rules x all strings<=4 chars x all sub-ranges', 'q', {'VERIF_PROFILE': 'release'})
+NB_GEN_SUB_REL = ('derive:nb_gen', 'nb_gen_subinput@release', 'RELEASE profile (debug assertions off, unchecked slicing): 22 entry rules x all strings<=4 chars x all sub-ranges', 'q', {'VERIF_PROFILE': 'release'})
 NB_GEN_REL = ('derive:nb_gen', 'nb_gen_vs_pest@release', 'RELEASE profile: 38 rules x all strings<=5 chars over 3 alphabets', 'q', {'VERIF_PROFILE': 'release'})
 NB_INPUT_REL = ('nb_input', 'nb_skip_contract@release', 'RELEASE profile: skip / Position::next on all strings<=4 chars x all spans', 'q', {'VERIF_PROFILE': 'release'})
 NB_GEN_SKIPTOK = ('derive:nb_gen', 'nb_gen_skip_tokens', 'generated parser vs pest, grammar with NON-silent WHITESPACE/COMMENT: 5 rules x all strings<=6 tokens over 2 alphabets', 'q')
@@ -60,9 +60,9 @@ NB_GEN_UNOPT = ('derive:nb_gen', 'nb_gen_unoptimized', 'parser generated with #[
 NB_GEN_UNOPT_PLUS = ('derive:nb_gen', 'nb_gen_unopt_plus', 'a+ generated with #[pest_optimizer = false] vs pest under implicit skipping: all strings<=5 chars over {a,blank} (finding D8)', 'q')
 NB_GEN_COMMENT_INNER = ('derive:nb_gen', 'nb_gen_comment_inner', 'non-silent COMMENT mentioning a non-silent rule: all strings<=5 tokens', 'q')
 NB_LEAF = ('nb_peg', 'nb_leaf_contents', 'leaf contents on all strings<=3 chars over 10 characters (1-4 bytes, CR, LF)', 'q')
-NB_GEN_SUB = ('derive:nb_gen', 'nb_gen_subinput', 'generated parser: 21 entry rules x all strings<=4 chars over 2 alphabets x all sub-ranges (Span/Position vs fresh copy)', 'Q')
+NB_GEN_SUB = ('derive:nb_gen', 'nb_gen_subinput', 'generated parser: 22 entry rules x all strings<=4 chars over 2 alphabets x all sub-ranges (Span/Position vs fresh copy)', 'Q')
 NB_MATCHERS = ('nb_input', 'nb_matchers', 'every default matcher on all strings<=3 chars x all spans x 3 cursors; match_string / match_insensitive on all 128x128 ASCII pairs', 'q')
-NB_GEN_SUB_T = ('derive:nb_gen', 'nb_gen_subinput', 'generated parser: 21 entry rules x all strings<=6 chars x all sub-ranges', 't', {'VERIF_NB_L': '6'})
+NB_GEN_SUB_T = ('derive:nb_gen', 'nb_gen_subinput', 'generated parser: 22 entry rules x all strings<=6 chars x all sub-ranges', 't', {'VERIF_NB_L': '6'})
 K_PEG = [
     ('k_peg', 'peg_seq3_skip', 'bounded', 'q', 'a ~ b ~ a with skip; symbolic input <=5 chars over {a,b,space}; unwind 7'),
     ('k_peg', 'peg_seq2_atomic', 'bounded', 'q', '@{a ~ b}; symbolic input <=4 chars; unwind 6'),
